@@ -62,6 +62,21 @@ CHECKS = {
         technique="TLA+ contract + implementation-shaped spec, TLC refinement check, per-edge behaviour replay on the real object, TLC trace validation",
         design_ref="DESIGN.md section 4, C14"),
 }
+CHECKS["C19"] = dict(
+    text="The two hand-maintained tables are extracted from the compiled library at check time (GRPCStatusCode(class) for the 12 classes, "
+         "FromGRPCError(status error) for the 17 codes) into a generated TLA+ module; TLC explores ErrClasses on them over class x wrap depth "
+         "0..4 (thorough 0..6) x embed position x 14 message texts and checks that the table-driven model of Is/GRPCStatusCode/GRPCWrap/"
+         "FromGRPCError satisfies the contract (class kept, no other class, GRPCWrap idempotent, object extractable, non-OK code never nil, "
+         "class->code->class identity). One behaviour per edge of that graph is rebuilt with the real fmt.Errorf(%w)/EmbedObject/GRPCWrap and "
+         "every real Is/code/class/extract result compared with what the property requires; seeded random chains with random texts over the "
+         "marker's alphabet are recorded and validated by TLC against the same contract operators. A TLC table finding counts only when the "
+         "real functions confirm it. Exhaustive for the property's stated bounds on the listed texts; not a proof for all message texts.",
+    note="Trusted: TLC, the contract operators Required/CodeRequired and the set Coded (the ten classes listed in errorsToCode at the pinned "
+         "commit count as 'having a gRPC code'), the harness's identification of sentinels by ==, encoding/json for object equality. "
+         "Texts containing the full embed marker and wrapping applied after GRPCWrap are outside the property and not exercised.",
+    technique="TLA+ contract + table-driven model with constants probed from the compiled code, TLC invariant check, per-edge behaviour replay on the real functions, TLC trace validation",
+    design_ref="DESIGN.md section 4, C19")
+
 
 PENDING_REASON = "check not built yet in this round; the TLA+ design for it is in DESIGN.md section 4"
 
